@@ -10,6 +10,7 @@
 -/
 import MitmVerif.Lemmas.C05_Map
 import MitmVerif.Lemmas.C05_Sub
+import MitmVerif.Lemmas.C05_C03Run
 namespace MitmVerif.Props.C05
 open MitmVerif MitmVerif.C05
 
@@ -224,7 +225,7 @@ example : (ex2.step .connClosed).up = [(1, .err, some 1), (3, .err, none), (5, .
   CONSEQUENCES: in every state `Http2Client` can reach (`Reach2`) when the HTTP layer hands over, per stream, the
   request head first and once (`Good`), then body data, at most one set of trailers and one end of message, in this
   order, or an error (`Good2` — the grammar of the `SendHttp` commands `HttpStream` addresses to the server, see
-  `Lemmas/C05_C03.lean` for its derivation from the model of C03).  The guard `if self.h2_conn.streams[id].state_machine
+  `httpstream_hands_over_in_order` below for its derivation from the model of C03).  The guard `if self.h2_conn.streams[id].state_machine
   … is_open_for_us` in `Http2Connection._handle_event` is part of the model (`St.process`), not of the hypotheses. -/
 
 /-- every stream is well kept in every reachable state — whatever the windows, the frame size, the other streams, the
@@ -255,5 +256,45 @@ theorem buffered_bytes_conserved_reachable (σ : St) (h : Reach2 σ) (sid : Nat)
 
 /-- `Reach2` only restricts `Reach`: every theorem above about reachable states applies -/
 theorem reach2_is_reach (σ : St) (h : Reach2 σ) : Reach σ := reach2_reach σ h
+
+/-! ### … and the order itself, derived from the model of `HttpStream` (C03)
+
+  `C03.srvEvents` reads the `SendHttp(…, context.server)` commands off the trace of the C03 model (`Out.send false`
+  with the tags rh / rd / rt / re / rx) as the events `Http2Client` is handed (payloads dropped). -/
+
+/-- in EVERY run of the model of `HttpStream` (any inputs in any order, any addon actions, any body-size verdicts, any
+    interleaving with `_paused_event_queue`, with or without streaming) the events handed to the server connection
+    keep the order `Reach2` assumes: every one of them is `allowed` after those before it (`GramOk`), and the first —
+    and only the first — is the request head (`hdrFirst`) -/
+theorem httpstream_hands_over_in_order (l t : Nat) (evs : List C03.Ev) :
+    GramOk (C03.srvEvents (C03.run l t evs).trace) ∧
+    (C03.srvEvents (C03.run l t evs).trace = [] ∨ hdrFirst (C03.srvEvents (C03.run l t evs).trace)) :=
+  C03.srvEvents_grammar l t evs
+
+/-- an event without its payload (the order does not depend on it) -/
+def shape : Ev → Ev
+  | .hdr _ => .hdr false
+  | .data _ => .data []
+  | e => e
+
+private theorem any_shape (l : List Ev) (f : Ev → Bool) (hf : ∀ e, f (shape e) = f e) : (l.map shape).any f = l.any f := by
+  induction l with
+  | nil => rfl
+  | cons a rest ih => simp [List.any_cons, hf a, ih]
+
+private theorem allowed_shape (pre : List Ev) (ev : Ev) : allowed (pre.map shape) (shape ev) = allowed pre ev := by
+  have h2 : E2 (pre.map shape) = E2 pre := any_shape pre _ (by intro e; cases e <;> rfl)
+  have h1 : E1 (pre.map shape) = E1 pre := any_shape pre _ (by intro e; cases e <;> rfl)
+  cases ev <;> simp [allowed, shape, h1, h2]
+
+/-- `Good2` discharged: if what the client model was handed for stream `t`, followed by the next event, is — payloads
+    aside — the beginning of what some run of the `HttpStream` model hands to the server connection, the next event
+    is in order -/
+theorem good2_from_httpstream (σ : St) (t : Nat) (ev : Ev) (l tt : Nat) (evs : List C03.Ev) (post : List Ev)
+    (h : C03.srvEvents (C03.run l tt evs).trace = (evsOf t σ.sub ++ ev :: post).map shape) : Good2 σ t ev := by
+  have g := (httpstream_hands_over_in_order l tt evs).1
+  have := g ((evsOf t σ.sub).map shape) (shape ev) (post.map shape) (by rw [h]; simp)
+  unfold Good2
+  rw [← allowed_shape]; exact this
 
 end MitmVerif.Props.C05
